@@ -13,6 +13,7 @@ shaped answer only is MODEL-DRIFT (informational).
 import math
 import random
 import sys
+import warnings
 
 import numpy as np
 
@@ -60,6 +61,7 @@ def main():
         for scale, ascale in ((1.0, 1.0), (0.25, 3.0)):
             freq = np.arange(1, n + 1, dtype=float) * scale
             replay_scope(run, hvsrpy, by_range, freq, scale, ascale, rng, stride, cfg)
+    mean_peak_after_rejection_range(run)
     return run.finish(
         rule="every (curve in Levels^N, lo, hi on the half-step lattice incl. None/inverted/out-of-grid) "
              "state of spec/Peaks.tla replayed on HvsrCurve / HvsrTraditional (two range orders) / "
@@ -140,6 +142,7 @@ def replay_scope(run, hvsrpy, by_range, freq, scale, ascale, rng, stride, cfg):
     rng.shuffle(shuffled)
     orders.append(shuffled)
     half = nw // 2
+    by_prev = {}
     for oi, order in enumerate(orders):
         trad = HvsrTraditional(freq, amp)
         azi = HvsrAzimuthal([HvsrTraditional(freq, amp[:half]), HvsrTraditional(freq, amp[half:])], [0., 90.])
@@ -160,11 +163,81 @@ def replay_scope(run, hvsrpy, by_range, freq, scale, ascale, rng, stride, cfg):
             check_container(run, f"HvsrTraditional[order{oi}]", trad, cs, freq, amp, scale, ascale, 0)
             check_container(run, f"HvsrAzimuthal[0][order{oi}]", azi.hvsrs[0], cs[:half], freq, amp[:half], scale, ascale, 0)
             check_container(run, f"HvsrAzimuthal[1][order{oi}]", azi.hvsrs[1], cs[half:], freq, amp[half:], scale, ascale, 0)
+            # "changing the range always re-evaluates every peak" - also when the range is changed by the window-rejection
+            # algorithm (which updates the inner objects itself) and for the peak of the azimuthal MEAN curve: it must be the one
+            # of an object built from the same curves, masks and range in the ordinary way
+            if oi == 2 and rng.random() < 0.25 and lo is not None and hi is not None:
+                import copy as _copy
+                from hvsrpy import frequency_domain_window_rejection
+                a2 = _copy.deepcopy(azi)
+                prev = by_prev.get("r")
+                try:
+                    with warnings.catch_warnings():
+                        warnings.simplefilter("ignore")
+                        if prev is not None:
+                            a2.update_peaks_bounded(search_range_in_hz=prev)
+                        frequency_domain_window_rejection(a2, n=2.5, max_iterations=3, search_range_in_hz=r,
+                                                          distribution_fn="normal", distribution_mc="normal")
+                        got_mc = a2.mean_curve_peak("normal")
+                except Exception:
+                    got_mc = None
+                run.notes["fdwra_range_mean_curve_peaks"] = run.notes.get("fdwra_range_mean_curve_peaks", 0) + (1 if got_mc is not None else 0)
+                if got_mc is not None:
+                    fresh = HvsrAzimuthal([HvsrTraditional(freq, amp[:half]), HvsrTraditional(freq, amp[half:])], [0., 90.])
+                    fresh.update_peaks_bounded(search_range_in_hz=r)
+                    for x, y in zip(fresh.hvsrs, a2.hvsrs):
+                        x.valid_window_boolean_mask = np.array(y.valid_window_boolean_mask)
+                        x.valid_peak_boolean_mask = np.array(y.valid_peak_boolean_mask)
+                    try:
+                        want_mc = fresh.mean_curve_peak("normal")
+                    except Exception:
+                        want_mc = None
+                    if want_mc is not None and (float(got_mc[0]) != float(want_mc[0])):
+                        run.violation("mean-curve-peak-after-fdwra-range", f"azimuthal object, range {prev} then frequency_domain_window_rejection(search_range={r}): "
+                                      f"mean-curve peak at {float(got_mc[0])} Hz, an object with the same curves, masks and range reports {float(want_mc[0])} Hz",
+                                      dict(kind="mc-peak", lo=lo, hi=hi))
+            by_prev["r"] = r
             if tuple(azi.meta.get("search_range_in_hz")) != r or tuple(trad.meta.get("search_range_in_hz")) != r:
                 run.violation("meta-range", f"meta search range {azi.meta.get('search_range_in_hz')} / "
                               f"{trad.meta.get('search_range_in_hz')} differs from requested {r}",
                               dict(kind="meta", lo=lo, hi=hi))
             run.case()
+
+
+def mean_peak_after_rejection_range(run):
+    """The peak of the azimuthal (and traditional) MEAN curve is re-evaluated when the search range is changed by
+    frequency_domain_window_rejection: two-bump curves (a bump at 2 Hz, a higher one at 8 Hz), first the full range,
+    then the rejection with a range that excludes the higher bump (and the other way round)."""
+    from hvsrpy import HvsrTraditional, HvsrAzimuthal, frequency_domain_window_rejection
+    f = np.linspace(0.5, 10.0, 20)
+    def rows(k):
+        out = []
+        for w in range(4):
+            a = np.ones(20)
+            a[3 + (w + k) % 2] = 3.0 + 0.1 * w          # ~2 Hz
+            a[15 + (w % 2)] = 5.0 + 0.1 * w              # ~8 Hz
+            out.append(a)
+        return np.array(out)
+    for kind in ("azimuthal", "traditional"):
+        for first, second in (((None, None), (1.0, 5.0)), ((1.0, 5.0), (6.0, 9.9)), ((6.0, 9.9), (None, 5.0)), ((None, 5.0), (None, None))):
+            mk = lambda: (HvsrAzimuthal([HvsrTraditional(f, rows(0)), HvsrTraditional(f, rows(1))], [0., 90.]) if kind == "azimuthal"
+                          else HvsrTraditional(f, rows(0)))
+            obj, fresh = mk(), mk()
+            with warnings.catch_warnings():
+                warnings.simplefilter("ignore")
+                obj.update_peaks_bounded(search_range_in_hz=first)
+                frequency_domain_window_rejection(obj, n=3, max_iterations=2, search_range_in_hz=second, distribution_fn="normal", distribution_mc="normal")
+                fresh.update_peaks_bounded(search_range_in_hz=second)
+                ia, ib = ([obj], [fresh]) if kind == "traditional" else (obj.hvsrs, fresh.hvsrs)
+                for x, y in zip(ia, ib):
+                    y.valid_window_boolean_mask = np.array(x.valid_window_boolean_mask)
+                    y.valid_peak_boolean_mask = np.array(x.valid_peak_boolean_mask)
+                got, want = obj.mean_curve_peak("normal"), fresh.mean_curve_peak("normal")
+            lo_, hi_ = (second[0] or 0.0), (second[1] or 99.0)
+            if float(got[0]) != float(want[0]) or not (lo_ < float(got[0]) < hi_):
+                run.violation(f"mean-curve-peak-after-fdwra-range:{kind}", f"{kind}: range {first}, then frequency_domain_window_rejection(search_range={second}): mean-curve peak "
+                              f"reported at {float(got[0])} Hz; an object with the same curves, masks and range reports {float(want[0])} Hz", dict(kind="mc-peak", obj=kind))
+            run.case(("mc-after-fdwra", kind, str(first), str(second)))
 
 
 def check_container(run, what, obj, cs, freq, amp, scale, ascale, _):
